@@ -10,7 +10,9 @@ import (
 	"hash"
 	"math/rand/v2"
 	"os"
+	"strings"
 	"sync"
+	"sync/atomic"
 	"time"
 
 	"google.golang.org/protobuf/proto"
@@ -21,12 +23,10 @@ import (
 	cppb "github.com/scionproto/scion/pkg/proto/control_plane"
 	cryptopb "github.com/scionproto/scion/pkg/proto/crypto"
 	"github.com/scionproto/scion/pkg/scrypto"
-	"github.com/scionproto/scion/pkg/scrypto/cppki"
 	"github.com/scionproto/scion/pkg/scrypto/signed"
 	seg "github.com/scionproto/scion/pkg/segment"
 	"github.com/scionproto/scion/pkg/segment/extensions/discovery"
 	"github.com/scionproto/scion/private/topology"
-	"github.com/scionproto/scion/private/trust"
 
 	"verif/beaconpki"
 	"verif/beaconref"
@@ -117,6 +117,8 @@ type c23Witness struct {
 	SegID      uint16            `json:"segment_id"`
 	MasterKey  string            `json:"master_key"`
 	Signers    []c23SignerW      `json:"signers"`
+	ASMTU      uint16            `json:"as_mtu"`
+	History    []string          `json:"history,omitempty"` // long-lived extender: everything done with it before this call
 	Err        string            `json:"error,omitempty"`
 	Observed   map[string]any    `json:"observed,omitempty"`
 }
@@ -309,6 +311,13 @@ type c23Node struct {
 	egress  uint16
 	peers   []uint16
 	mtu     uint16
+	// ridReloaded (histories only): interfaces whose remote interface id was
+	// changed by an in-place topology reload since the id was introduced.
+	ridReloaded map[uint16]bool
+	// mustFail (histories only): the call is outside the domain in which an
+	// entry can satisfy the statement (e.g. egress interface not in the
+	// topology) and has to fail; the value names the reason.
+	mustFail string
 }
 
 type c23Pre struct {
@@ -318,18 +327,7 @@ type c23Pre struct {
 }
 
 func (n *c23Node) extender(signers []c23SignerCfg, maxExp uint8, epic bool) *beaconing.DefaultExtender {
-	var ss fixedSigners
-	for _, s := range signers {
-		ss = append(ss, trust.Signer{
-			PrivateKey:    s.key.Priv,
-			Algorithm:     s.key.Algo,
-			IA:            n.ia,
-			SubjectKeyID:  s.key.SKID,
-			Expiration:    s.expiration,
-			TRCID:         cppki.TRCID{ISD: n.ia.ISD(), Base: 1, Serial: 1},
-			ChainValidity: cppki.Validity{NotBefore: s.notBefore, NotAfter: s.expiration},
-		})
-	}
+	ss := c23TrustSigners(n.ia, signers)
 	return &beaconing.DefaultExtender{
 		IA:                   n.ia,
 		SignerGen:            ss,
@@ -344,6 +342,10 @@ func (n *c23Node) extender(signers []c23SignerCfg, maxExp uint8, epic bool) *bea
 	}
 }
 
+func c23InfoStr(inf ifstate.InterfaceInfo) string {
+	return fmt.Sprintf("%s#%d mtu=%d %s", inf.IA, inf.RemoteID, inf.MTU, inf.LinkType)
+}
+
 func prefixBucket(p int) string {
 	switch {
 	case p == 0:
@@ -356,9 +358,11 @@ func prefixBucket(p int) string {
 }
 
 type c23Ctx struct {
-	r        *mon.Run
-	w        *c23World
-	thorough bool
+	r           *mon.Run
+	w           *c23World
+	thorough    bool
+	mainSamples atomic.Int32
+	obsPrinted  atomic.Int32
 }
 
 func (c *c23Ctx) witness(chain int, call string, pos int, n *c23Node, in, eg uint16, peers []uint16, maxExp uint8,
@@ -370,8 +374,9 @@ func (c *c23Ctx) witness(chain int, call string, pos int, n *c23Node, in, eg uin
 		SegID: ps.Info.SegmentID, MasterKey: mon.Hex(n.master.raw), Interfaces: map[string]string{},
 	}
 	for id, inf := range n.infos {
-		w.Interfaces[fmt.Sprint(id)] = fmt.Sprintf("%s#%d", inf.IA, inf.RemoteID)
+		w.Interfaces[fmt.Sprint(id)] = c23InfoStr(inf)
 	}
+	w.ASMTU = n.mtu
 	for _, s := range signers {
 		w.Signers = append(w.Signers, c23SignerW{
 			Kind: s.kind, NotBeforeRelTs: s.notBefore.Sub(ps.Info.Timestamp).Seconds(),
@@ -385,8 +390,12 @@ func (c *c23Ctx) witness(chain int, call string, pos int, n *c23Node, in, eg uin
 // judge checks the entry that a successful Extend appended. It returns the
 // entry's raw signed part and hop MAC for the running chain, ok=false if the
 // entry is too broken to continue from.
-func (c *c23Ctx) judge(wit *c23Witness, ps *seg.PathSegment, pre c23Pre, n *c23Node, in, eg uint16,
-	maxExp uint8, signers []c23SignerCfg, cls string) (beaconref.RawEntry, [6]byte, bool) {
+//
+// kp is the prefix of the violation keys: "C23:" for calls on a fresh extender,
+// "C23:history:" / "C23:after-reload:" for calls on a long-lived extender (see
+// c23hist.go). n is the oracle's view of the AS at the time of the call.
+func (c *c23Ctx) judge(kp string, wit *c23Witness, ps *seg.PathSegment, pre c23Pre, n *c23Node, in, eg uint16,
+	peers []uint16, maxExp uint8, signers []c23SignerCfg, cls string) (beaconref.RawEntry, [6]byte, bool) {
 
 	r := c.r
 	obs := map[string]any{}
@@ -395,33 +404,33 @@ func (c *c23Ctx) judge(wit *c23Witness, ps *seg.PathSegment, pre c23Pre, n *c23N
 	idx := len(pre.raws)
 	pb := seg.PathSegmentToPB(ps)
 	if len(pb.AsEntries) != idx+1 {
-		r.Violation("C23:entry-count", fmt.Sprintf("successful Extend left %d entries, expected %d", len(pb.AsEntries), idx+1), wit)
+		r.Violation(kp+"entry-count", fmt.Sprintf("successful Extend left %d entries, expected %d", len(pb.AsEntries), idx+1), wit)
 		return beaconref.RawEntry{}, none, false
 	}
 	if !bytes.Equal(pb.SegmentInfo, pre.info) {
-		r.Violation("C23:info-changed", "segment information changed by Extend", wit)
+		r.Violation(kp+"info-changed", "segment information changed by Extend", wit)
 	}
 	for i := 0; i < idx; i++ {
 		s := pb.AsEntries[i].Signed
 		if s == nil || !bytes.Equal(s.HeaderAndBody, pre.raws[i].HeaderAndBody) || !bytes.Equal(s.Signature, pre.raws[i].Signature) {
-			r.Violation("C23:earlier-entries-modified", fmt.Sprintf("earlier entry %d changed by Extend", i), wit)
+			r.Violation(kp+"earlier-entries-modified", fmt.Sprintf("earlier entry %d changed by Extend", i), wit)
 			return beaconref.RawEntry{}, none, false
 		}
 	}
 	last := pb.AsEntries[idx].Signed
 	if last == nil {
-		r.Violation("C23:signature", "new entry carries no signed message", wit)
+		r.Violation(kp+"signature", "new entry carries no signed message", wit)
 		return beaconref.RawEntry{}, none, false
 	}
 	raw := beaconref.RawEntry{HeaderAndBody: last.HeaderAndBody, Signature: last.Signature}
 	meta, err := beaconref.ParseSigned(last.HeaderAndBody)
 	if err != nil {
-		r.Violation("C23:signature", "new entry's signed message does not parse: "+err.Error(), wit)
+		r.Violation(kp+"signature", "new entry's signed message does not parse: "+err.Error(), wit)
 		return raw, none, false
 	}
 	var body cppb.ASEntrySignedBody
 	if err := proto.Unmarshal(meta.Body, &body); err != nil || body.HopEntry == nil || body.HopEntry.HopField == nil {
-		r.Violation("C23:signature", fmt.Sprintf("signed body is not an AS entry with a hop field: %v", err), wit)
+		r.Violation(kp+"signature", fmt.Sprintf("signed body is not an AS entry with a hop field: %v", err), wit)
 		return raw, none, false
 	}
 	obs["signed_local"] = addr.IA(body.IsdAs).String()
@@ -429,15 +438,23 @@ func (c *c23Ctx) judge(wit *c23Witness, ps *seg.PathSegment, pre c23Pre, n *c23N
 
 	// -- names the local AS and the neighbour behind the egress interface
 	if addr.IA(body.IsdAs) != n.ia {
-		r.Violation("C23:local", fmt.Sprintf("entry names %s as local AS, extender is %s", addr.IA(body.IsdAs), n.ia), wit)
+		r.Violation(kp+"local", fmt.Sprintf("entry names %s as local AS, extender is %s", addr.IA(body.IsdAs), n.ia), wit)
 	}
 	var wantNext addr.IA
+	egKnown := true
 	if eg != 0 {
-		wantNext = n.infos[eg].IA
+		var egInfo ifstate.InterfaceInfo
+		egInfo, egKnown = n.infos[eg]
+		wantNext = egInfo.IA
 	}
-	if addr.IA(body.NextIsdAs) != wantNext {
-		r.Violation("C23:next", fmt.Sprintf("entry names %s as next AS, neighbour behind egress %d is %s", addr.IA(body.NextIsdAs), eg, wantNext), wit)
+	if !egKnown {
+		r.Violation(kp+"next", fmt.Sprintf("entry names %s as next AS, but egress %d is not an interface of the topology at the time of the call",
+			addr.IA(body.NextIsdAs), eg), wit)
+	} else if addr.IA(body.NextIsdAs) != wantNext {
+		r.Violation(kp+"next", fmt.Sprintf("entry names %s as next AS, neighbour behind egress %d is %s", addr.IA(body.NextIsdAs), eg, wantNext), wit)
 	}
+	// -- MTUs and peer entries name what the topology says about the interfaces
+	c.judgeTopo(kp, wit, &body, n, in, eg, peers)
 
 	// -- signed over info and all earlier entries and signatures, by one of the configured signers
 	var used *c23SignerCfg
@@ -448,18 +465,18 @@ func (c *c23Ctx) judge(wit *c23Witness, ps *seg.PathSegment, pre c23Pre, n *c23N
 	}
 	entries := append(append([]beaconref.RawEntry(nil), pre.raws...), raw)
 	if used == nil {
-		r.Violation("C23:unknown-signer", fmt.Sprintf("entry signed with key id %x which is none of the configured signers", meta.SKID), wit)
+		r.Violation(kp+"unknown-signer", fmt.Sprintf("entry signed with key id %x which is none of the configured signers", meta.SKID), wit)
 	} else {
 		obs["signer_used"] = used.kind
 		if err := beaconref.VerifyEntry(&used.key.Priv.PublicKey, pre.info, entries, idx); err != nil {
-			r.Violation("C23:signature", "independent verification over info + earlier entries and signatures failed: "+err.Error(), wit)
+			r.Violation(kp+"signature", "independent verification over info + earlier entries and signatures failed: "+err.Error(), wit)
 		} else {
 			r.Event("sig_verified")
 		}
 		// cross-check through pkg/segment's own associated-data plumbing
 		v := c23Verifier{keys: map[string]*ecdsa.PublicKey{string(used.key.SKID): &used.key.Priv.PublicKey}}
 		if err := ps.VerifyASEntry(context.Background(), v, idx); err != nil {
-			r.Violation("C23:verify-asentry", "PathSegment.VerifyASEntry with an independent ECDSA verifier failed: "+err.Error(), wit)
+			r.Violation(kp+"verify-asentry", "PathSegment.VerifyASEntry with an independent ECDSA verifier failed: "+err.Error(), wit)
 		}
 	}
 
@@ -470,18 +487,18 @@ func (c *c23Ctx) judge(wit *c23Witness, ps *seg.PathSegment, pre c23Pre, n *c23N
 	tsSec := uint32(ps.Info.Timestamp.Unix())
 	ok := true
 	if hf.Ingress != uint64(in) || hf.Egress != uint64(eg) {
-		r.Violation("C23:hop-interfaces", fmt.Sprintf("hop field is for %d>%d, extension was for %d>%d", hf.Ingress, hf.Egress, in, eg), wit)
+		r.Violation(kp+"hop-interfaces", fmt.Sprintf("hop field is for %d>%d, extension was for %d>%d", hf.Ingress, hf.Egress, in, eg), wit)
 	}
 	var sigma [6]byte
 	if len(hf.Mac) != 6 || hf.ExpTime > 255 || hf.Ingress > 65535 || hf.Egress > 65535 {
-		r.Violation("C23:hop-mac", fmt.Sprintf("hop field not encodable: mac %x exp_time %d", hf.Mac, hf.ExpTime), wit)
+		r.Violation(kp+"hop-mac", fmt.Sprintf("hop field not encodable: mac %x exp_time %d", hf.Mac, hf.ExpTime), wit)
 		return raw, none, false
 	}
 	copy(sigma[:], hf.Mac)
 	want := beaconref.HopMAC(n.master.ref, beta, tsSec, uint8(hf.ExpTime), uint16(hf.Ingress), uint16(hf.Egress))
 	obs["hop_mac"], obs["ref_hop_mac"], obs["beta"], obs["exp_time"] = mon.Hex(sigma[:]), mon.Hex(want[:]), beta, hf.ExpTime
 	if sigma != want {
-		r.Violation("C23:hop-mac", fmt.Sprintf("hop MAC %x, reference AES-CMAC under beta_%d=%#04x gives %x", sigma, idx, beta, want), wit)
+		r.Violation(kp+"hop-mac", fmt.Sprintf("hop MAC %x, reference AES-CMAC under beta_%d=%#04x gives %x", sigma, idx, beta, want), wit)
 		ok = false
 	}
 	r.Event("hop_mac_checked")
@@ -492,7 +509,7 @@ func (c *c23Ctx) judge(wit *c23Witness, ps *seg.PathSegment, pre c23Pre, n *c23N
 	for j, pe := range body.PeerEntries {
 		ph := pe.GetHopField()
 		if ph == nil || len(ph.Mac) != 6 || ph.ExpTime > 255 || ph.Ingress > 65535 || ph.Egress > 65535 {
-			r.Violation("C23:peer-mac", fmt.Sprintf("peer entry %d has no encodable hop field", j), wit)
+			r.Violation(kp+"peer-mac", fmt.Sprintf("peer entry %d has no encodable hop field", j), wit)
 			continue
 		}
 		var pm [6]byte
@@ -500,7 +517,7 @@ func (c *c23Ctx) judge(wit *c23Witness, ps *seg.PathSegment, pre c23Pre, n *c23N
 		pw := beaconref.HopMAC(n.master.ref, betaNext, tsSec, uint8(ph.ExpTime), uint16(ph.Ingress), uint16(ph.Egress))
 		if pm != pw {
 			obs["peer_mac"], obs["ref_peer_mac"], obs["beta_next"] = mon.Hex(pm[:]), mon.Hex(pw[:]), betaNext
-			r.Violation("C23:peer-mac", fmt.Sprintf("peer entry %d (ingress %d) MAC %x, reference under beta_%d=%#04x gives %x",
+			r.Violation(kp+"peer-mac", fmt.Sprintf("peer entry %d (ingress %d) MAC %x, reference under beta_%d=%#04x gives %x",
 				j, ph.Ingress, pm, idx+1, betaNext, pw), wit)
 		}
 		exps = append(exps, ph.ExpTime)
@@ -516,11 +533,11 @@ func (c *c23Ctx) judge(wit *c23Witness, ps *seg.PathSegment, pre c23Pre, n *c23N
 			what = fmt.Sprintf("peer hop field %d", j-1)
 		}
 		if e > uint32(maxExp) {
-			r.Violation("C23:exp-exceeds-max", fmt.Sprintf("%s ExpTime %d exceeds configured maximum %d", what, e, maxExp), wit)
+			r.Violation(kp+"exp-exceeds-max", fmt.Sprintf("%s ExpTime %d exceeds configured maximum %d", what, e, maxExp), wit)
 		}
 		if used != nil {
 			if exp := beaconref.HopExpiry(ps.Info.Timestamp, uint8(e)); exp.After(used.expiration) {
-				r.Violation("C23:exp-exceeds-signer", fmt.Sprintf("%s ExpTime %d expires %v after the signer used (signer expiry - ts = %v, hop lifetime %v)",
+				r.Violation(kp+"exp-exceeds-signer", fmt.Sprintf("%s ExpTime %d expires %v after the signer used (signer expiry - ts = %v, hop lifetime %v)",
 					what, e, exp.Sub(used.expiration), used.expiration.Sub(ps.Info.Timestamp), beaconref.ExpTimeDuration(uint8(e))), wit)
 			}
 		}
@@ -546,7 +563,7 @@ func (c *c23Ctx) judge(wit *c23Witness, ps *seg.PathSegment, pre c23Pre, n *c23N
 		uint64(ent.HopEntry.HopField.ConsIngress) != hf.Ingress || uint64(ent.HopEntry.HopField.ConsEgress) != hf.Egress ||
 		uint32(ent.HopEntry.HopField.ExpTime) != hf.ExpTime || ent.HopEntry.HopField.MAC != sigma ||
 		len(ent.PeerEntries) != len(body.PeerEntries) {
-		r.Violation("C23:struct-mismatch", "in-memory AS entry differs from what was signed", wit)
+		r.Violation(kp+"struct-mismatch", "in-memory AS entry differs from what was signed", wit)
 	}
 	var perr error
 	if eg == 0 {
@@ -555,7 +572,7 @@ func (c *c23Ctx) judge(wit *c23Witness, ps *seg.PathSegment, pre c23Pre, n *c23N
 		_, perr = seg.BeaconFromPB(pb)
 	}
 	if perr != nil {
-		r.Violation("C23:unparsable", "result of a successful Extend is rejected by the segment parser: "+perr.Error(), wit)
+		r.Violation(kp+"unparsable", "result of a successful Extend is rejected by the segment parser: "+perr.Error(), wit)
 	}
 	peersCls := "0"
 	switch {
@@ -566,9 +583,102 @@ func (c *c23Ctx) judge(wit *c23Witness, ps *seg.PathSegment, pre c23Pre, n *c23N
 	}
 	r.Class(fmt.Sprintf("%s/bound=%s/%s/peers=%s", cls, bound, tight, peersCls))
 	if r.WantSample() && idx >= 2 && len(body.PeerEntries) > 0 {
-		r.Sample(wit)
+		// 4 samples from the main phase, the rest from calls after a reload
+		if (kp == "C23:" && c.mainSamples.Add(1) <= 4) || kp == "C23:after-reload:" {
+			r.Sample(wit)
+		}
 	}
 	return raw, sigma, ok
+}
+
+// judgeTopo compares what the signed entry says about the AS and its interfaces
+// against the topology n.infos: AS MTU, MTU of the ingress interface, and per
+// peer entry the neighbour, its interface id and the MTU of the peering
+// interface. A peer entry is demanded for every requested peer interface that
+// is in the topology with a remote interface id; none is allowed for an
+// interface that was not requested or is not in the topology; interfaces
+// without remote interface id are not judged either way.
+func (c *c23Ctx) judgeTopo(kp string, wit *c23Witness, body *cppb.ASEntrySignedBody, n *c23Node, in, eg uint16, peers []uint16) {
+	r := c.r
+	if body.Mtu != uint32(n.mtu) {
+		c.obsTopo(kp+"mtu", fmt.Sprintf("entry carries AS MTU %d, the extender is configured with %d", body.Mtu, n.mtu))
+	}
+	if inInfo, known := n.infos[in]; in == 0 || known {
+		if body.HopEntry.IngressMtu != uint32(inInfo.MTU) {
+			c.obsTopo(kp+"ingress-mtu", fmt.Sprintf("hop entry carries ingress MTU %d, ingress interface %d has MTU %d",
+				body.HopEntry.IngressMtu, in, inInfo.MTU))
+		}
+		r.Event("ingress_mtu_checked")
+	}
+	requested := map[uint16]bool{}
+	for _, id := range peers {
+		requested[id] = true
+	}
+	seen := map[uint16]bool{}
+	for j, pe := range body.PeerEntries {
+		ph := pe.GetHopField()
+		if ph == nil || ph.Ingress > 65535 {
+			continue // reported as peer-mac
+		}
+		id := uint16(ph.Ingress)
+		info, known := n.infos[id]
+		switch {
+		case !requested[id]:
+			c.obsTopo(kp+"peer-unexpected", fmt.Sprintf("peer entry %d is for interface %d which was not requested as peer", j, id))
+			continue
+		case !known:
+			c.obsTopo(kp+"peer-unexpected", fmt.Sprintf("peer entry %d is for interface %d which is not in the topology at the time of the call", j, id))
+			continue
+		case seen[id]:
+			c.obsTopo(kp+"peer-unexpected", fmt.Sprintf("two peer entries for interface %d", id))
+			continue
+		}
+		seen[id] = true
+		if ph.Egress != uint64(eg) {
+			c.obsTopo(kp+"peer-hop-interfaces", fmt.Sprintf("peer hop field is for %d>%d, extension was for egress %d", ph.Ingress, ph.Egress, eg))
+		}
+		if addr.IA(pe.PeerIsdAs) != info.IA {
+			c.obsTopo(kp+"peer", fmt.Sprintf("peer entry for interface %d names %s, the neighbour behind it is %s", id, addr.IA(pe.PeerIsdAs), info.IA))
+		}
+		if info.RemoteID != 0 && pe.PeerInterface != uint64(info.RemoteID) {
+			c.obsTopo(kp+"peer-interface", fmt.Sprintf("peer entry for interface %d names remote interface %d, the topology says %s#%d",
+				id, pe.PeerInterface, info.IA, info.RemoteID))
+		}
+		if pe.PeerMtu != uint32(info.MTU) {
+			c.obsTopo(kp+"peer-mtu", fmt.Sprintf("peer entry for interface %d carries MTU %d, the interface has MTU %d", id, pe.PeerMtu, info.MTU))
+		}
+		r.Event("peer_entry_checked")
+	}
+	for _, id := range peers {
+		info, known := n.infos[id]
+		if !known || info.RemoteID == 0 || info.IA.IsWildcard() {
+			if !seen[id] {
+				r.Event("peer_skipped_as_expected")
+			}
+			continue
+		}
+		if seen[id] {
+			continue
+		}
+		key := kp + "peer-missing"
+		what := fmt.Sprintf("no peer entry for requested peer interface %d (%s#%d in the topology)", id, info.IA, info.RemoteID)
+		if n.ridReloaded[id] {
+			key = kp + "peer-interface"
+			what += "; its remote interface id was set by a topology reload"
+		}
+		c.obsTopo(key, what)
+	}
+}
+
+// obsTopo records a difference between the entry and the topology that the
+// statement of C23 does not speak about (MTUs, peer entries' neighbour, remote
+// interface id, presence): an observation, never a verdict.
+func (c *c23Ctx) obsTopo(key, what string) {
+	k := strings.TrimPrefix(strings.TrimPrefix(strings.TrimPrefix(key, "C23:"), "after-reload:"), "history:")
+	c.r.Event("obs_topo_differs/" + k)
+	if c.obsPrinted.Add(1) <= 5 {
+		fmt.Printf("OBSERVATION c23 (%s): %s\n", key, what)
+	}
 }
 
 func (c *c23Ctx) runChain(rng *rand.Rand, chain int) {
@@ -729,8 +839,17 @@ func (c *c23Ctx) runChain(rng *rand.Rand, chain int) {
 	}
 }
 
-// extendOnce performs one consistent Extend call and judges it.
+// extendOnce performs one consistent Extend call on a fresh extender and judges it.
 func (c *c23Ctx) extendOnce(rng *rand.Rand, chain int, call string, pos int, n *c23Node, ps *seg.PathSegment,
+	pre c23Pre, cls string, adequate bool) (beaconref.RawEntry, [6]byte, bool) {
+	return c.extendWith(rng, nil, chain, call, pos, n, ps, pre, cls, adequate)
+}
+
+// extendWith performs one consistent Extend call and judges it. With h == nil
+// a fresh extender is built for the call; otherwise the long-lived extender of
+// the history h is reconfigured (signers, MaxExpTime, EPIC) and reused, and n
+// is the oracle's snapshot of the AS at the time of the call.
+func (c *c23Ctx) extendWith(rng *rand.Rand, h *c23Hist, chain int, call string, pos int, n *c23Node, ps *seg.PathSegment,
 	pre c23Pre, cls string, adequate bool) (beaconref.RawEntry, [6]byte, bool) {
 
 	r := c.r
@@ -741,7 +860,15 @@ func (c *c23Ctx) extendOnce(rng *rand.Rand, chain int, call string, pos int, n *
 	tgen := time.Now()
 	signers := c23GenSigners(rng, c.w, ts, tgen, adequate, c.thorough)
 	wit := c.witness(chain, call, pos, n, n.ingress, n.egress, peers, maxExp, epic, ps, signers, tgen)
-	ext := n.extender(signers, maxExp, epic)
+	kp := "C23:"
+	var ext *beaconing.DefaultExtender
+	if h == nil {
+		ext = n.extender(signers, maxExp, epic)
+	} else {
+		kp = h.keyPrefix()
+		ext = h.configure(n, signers, maxExp, epic)
+		wit.History = h.history()
+	}
 	var err error
 	t0 := time.Now()
 	pv, stack := mon.Try(func() {
@@ -751,7 +878,13 @@ func (c *c23Ctx) extendOnce(rng *rand.Rand, chain int, call string, pos int, n *
 	r.Eval(1)
 	var none [6]byte
 	if pv != nil {
-		r.Violation("C23:panic:"+mon.PanicSite(stack), fmt.Sprintf("Extend panicked: %v\n%s", pv, stack), wit)
+		r.Violation(kp+"panic:"+mon.PanicSite(stack), fmt.Sprintf("Extend panicked: %v\n%s", pv, stack), wit)
+		return beaconref.RawEntry{}, none, false
+	}
+	if n.mustFail != "" && err != nil {
+		wit.Err = err.Error()
+		r.Class(cls + "/rejected/" + n.mustFail)
+		r.Event("history_rejected_" + n.mustFail)
 		return beaconref.RawEntry{}, none, false
 	}
 	exp0, exp1 := c23ExpectOK(signers, ts, t0), c23ExpectOK(signers, ts, t1)
@@ -763,7 +896,7 @@ func (c *c23Ctx) extendOnce(rng *rand.Rand, chain int, call string, pos int, n *
 		switch {
 		case exp0 != exp1:
 		case exp0:
-			r.Violation("C23:unexpected-error", fmt.Sprintf("consistent extension (%s, ingress %d, egress %d) with a covering, "+
+			r.Violation(kp+"unexpected-error", fmt.Sprintf("consistent extension (%s, ingress %d, egress %d) with a covering, "+
 				"long-enough signer failed: %v", cls, n.ingress, n.egress, err), wit)
 		default:
 			reason := "no-covering-signer"
@@ -781,9 +914,12 @@ func (c *c23Ctx) extendOnce(rng *rand.Rand, chain int, call string, pos int, n *
 		return beaconref.RawEntry{}, none, false
 	}
 	r.Event("extend_ok")
+	if h != nil {
+		r.Event("history_extend_ok")
+	}
 	// success: every clause of the statement is judged on the entry, whatever the expectation was
 	// (a success without adequate signer necessarily breaks the expiry bound or uses an unknown key)
-	return c.judge(wit, ps, pre, n, n.ingress, n.egress, maxExp, signers, cls)
+	return c.judge(kp, wit, ps, pre, n, n.ingress, n.egress, peers, maxExp, signers, cls)
 }
 
 func checkC23(r *mon.Run) {
@@ -795,13 +931,22 @@ func checkC23(r *mon.Run) {
 		"copies: inconsistent ingress/egress (must fail) and arbitrary signer windows. Every appended entry is judged on its wire " +
 		"form by an independent AES-CMAC/hop-MAC/beta chain, independent ECDSA verification over the documented signature " +
 		"input, and the documented ExpTime arithmetic. class = position kind x prefix length bucket x governing bound x " +
-		"tightness x peer count, or probe kind x outcome, or error reason"
+		"tightness x peer count, or probe kind x outcome, or error reason. History phase: ONE long-lived DefaultExtender on " +
+		"ONE ifstate.Interfaces extends beacons (originate/propagate/terminate on fresh or prefix beacons) over 2..4 epochs; between " +
+		"epochs the topology is reloaded in place through Interfaces.Update (interfaces re-homed to another ISD-AS, other remote " +
+		"interface id / set / unset, other MTU, link type parent/child/peer/core changed so that the interface changes role, " +
+		"removed, re-added, added), between calls the AS key, AS MTU, MaxExpTime, signers, EPIC, StaticInfo and Task change; the " +
+		"same oracle judges every entry against the topology map handed to the last Update and the other state current at " +
+		"the call (keys C23:history:* before, C23:after-reload:* after the first reload); class reload/<role>-<change> = what " +
+		"happened to the ingress/egress/peer interface since this extender used it last"
 	r.Assumptions = []string{
 		"hop-field key = PBKDF2-HMAC-SHA256(master, \"Derive OF Key\", 1000, 16) (constants of the deployed key derivation; PBKDF2 itself from the Go standard library)",
 		"well-formed domain for 'must succeed': known interfaces with non-wildcard remote ISD-AS, previous entry's Next = local AS, some signer covers [timestamp, now] and outlives timestamp + 337.5 s",
 		"time.Now() inside Extend is handled by the bracket rule; quick tier keeps signer expirations >= 2 s away from now",
 		"choice among several covering signers and tightness of ExpTime are recorded, not judged (the statement only bounds expiry by the signer actually used)",
 		"ECDSA signatures are randomized, so signature bytes differ between runs of the same seed; case structure does not",
+		"'neighbour behind the interface' is read from the topology for peer entries as well: a peer entry names ISD-AS, remote interface id and MTU of its peering interface, the hop entry the MTU of the ingress interface, the entry the configured AS MTU; a peer entry is demanded for every requested peer interface that the topology knows with a remote interface id, none may exist for an interface outside the request or the topology; peers without remote interface id are not judged",
+		"history phase: the topology current at a call is the map handed to ifstate.NewInterfaces / the last Interfaces.Update before the call (nothing is read back from the implementation); an egress interface that the last reload removed must make the extension fail; StaticInfo, EPIC and Task are varied but their output is not judged",
 	}
 	if err := beaconref.SelfTest(); err != nil {
 		fmt.Fprintln(os.Stderr, "reference self-test failed:", err)
@@ -816,6 +961,7 @@ func checkC23(r *mon.Run) {
 	const workers = 8
 	chains := r.Pick(1600, 40000)
 	var wg sync.WaitGroup
+	tStart := time.Now() // phase durations are reported in the evidence only, they decide nothing
 	for wk := 0; wk < workers; wk++ {
 		wg.Add(1)
 		go func() {
@@ -827,8 +973,32 @@ func checkC23(r *mon.Run) {
 		}()
 	}
 	wg.Wait()
-	r.Require(int64(chains*4), 40, "extend_ok", "extend_err_expected", "probe_rejected", "sig_verified",
-		"hop_mac_checked", "peer_mac_checked", "exp_bound_by_signer", "exp_bound_by_max")
+	// history phase: long-lived extenders across topology reloads (c23hist.go)
+	tHist := time.Now()
+	hists := r.Pick(240, 6000)
+	for wk := 0; wk < workers; wk++ {
+		wg.Add(1)
+		go func() {
+			defer wg.Done()
+			rng := r.Rand(fmt.Sprint("c23-hist-w", wk))
+			for hi := wk; hi < hists; hi += workers {
+				c.runHistory(rng, 1000000+hi)
+			}
+		}()
+	}
+	wg.Wait()
+	r.Extra("wall_s_by_phase", map[string]float64{"chains": tHist.Sub(tStart).Seconds(), "histories": time.Since(tHist).Seconds()})
+	r.Require(int64(chains*4+hists*8), 60, "extend_ok", "extend_err_expected", "probe_rejected", "sig_verified",
+		"hop_mac_checked", "peer_mac_checked", "exp_bound_by_signer", "exp_bound_by_max",
+		"peer_entry_checked", "ingress_mtu_checked", "peer_skipped_as_expected",
+		"history_extend_ok", "history_reload", "history_key_rotated", "history_as_mtu_changed", "history_staticinfo_on",
+		"history_probe_rejected", "history_rejected_egress-removed")
 	r.RequireClasses("probe/first-with-nonzero-ingress/rejected/originate", "probe/later-with-zero-ingress/rejected/propagate",
-		"probe/later-with-zero-ingress/rejected/terminate", "probe/both-zero/rejected/originate")
+		"probe/later-with-zero-ingress/rejected/terminate", "probe/both-zero/rejected/originate",
+		// a long-lived extender met every kind of in-place topology change in every role
+		"reload/egress-rehomed", "reload/egress-readded", "reload/egress-linktype-changed", "reload/egress-removed",
+		"reload/egress-unchanged", "reload/egress-first-use",
+		"reload/ingress-rehomed", "reload/ingress-mtu-changed", "reload/ingress-readded",
+		"reload/peer-rehomed", "reload/peer-remote-id-changed", "reload/peer-remote-id-set", "reload/peer-mtu-changed",
+		"reload/peer-linktype-changed", "reload/peer-readded", "reload/peer-removed", "reload/peer-first-use")
 }
